@@ -1117,7 +1117,7 @@ def run(ctx):
     short = [c for c in ex if len(c['word']) <= 1]
     rest = [c for c in ex if len(c['word']) > 1]
     items += [('exhaustive', c) for c in short]
-    n_random = (160 if quick else 2500) * ctx.boost
+    n_random = (110 if quick else 2500) * ctx.boost
     rnd = [('random', gen_case(random_for(ctx, i))) for i in range(n_random)]
     # interleave the longer exhaustive words with the random histories
     k = max(1, len(rest) // max(1, len(rnd))) if rnd else 1
